@@ -47,6 +47,19 @@ pub fn near_value(v: &J, src: &mut Src) -> J {
 /// JSON parser's 2 ulp accuracy on 17-digit numerals).
 pub fn near_value_opt(v: &J, src: &mut Src, ulp: bool) -> J {
     match v {
+        // the zero family: 0, 0.0 and -0.0 are one value in three spellings
+        J::Num(N::Int(0)) if src.chance(100) => J::Num(N::F(if src.flip() { -0.0 } else { 0.0 })),
+        J::Num(N::F(f)) if *f == 0.0 && src.chance(160) => {
+            if f.is_sign_negative() {
+                if src.flip() {
+                    J::Num(N::F(0.0))
+                } else {
+                    J::Num(N::Int(0))
+                }
+            } else {
+                J::Num(N::F(-0.0))
+            }
+        }
         J::Num(N::Int(i)) => match src.below(3) {
             // (only while the float spelling stays within 15 written digits, which the JSON parser reads exactly)
             0 if i.abs() < 10_000_000_000_000 => J::Num(N::F(*i as f64)),
@@ -107,7 +120,12 @@ pub fn gen_number(src: &mut Src) -> J {
             _ => if src.flip() { J::f(-0.0) } else { J::int(0) },
         };
     }
-    match src.weighted(&[10, 6, 2, 3]) {
+    match src.weighted(&[10, 6, 2, 3, 2]) {
+        4 => match src.below(3) {
+            0 => J::int(0),
+            1 => J::f(0.0),
+            _ => J::f(-0.0),
+        },
         0 => J::int(src.range(-3, 12)),
         1 => {
             let k = src.range(-40, 40);
@@ -121,7 +139,47 @@ pub fn gen_number(src: &mut Src) -> J {
     }
 }
 
+/// Text that looks like (or almost like) a JSON value: numerals in every
+/// spelling, other JSON texts, each optionally padded with JSON blanks, other
+/// Unicode white space or stray characters.  What `to_number`, literal
+/// decoding and comparisons make of such strings is decided by exact rules.
+pub fn gen_jsonish(src: &mut Src) -> String {
+    const CORES: &[&str] = &[
+        "42", "-7", "0", "-0", "1.5", "-0.25", "1e3", "1E+2", "2.5e-3", "1e400", "-1e400", "01", "-01", "1.", ".5", "+1", "--1", "1e", "0x10", "1_000", "1,5",
+        "\u{ff11}\u{ff12}", "\u{663}", "\u{b2}", "NaN", "Infinity", "-Infinity", "true", "false", "null", "[1]", "[1, 2]", "{\"a\":1}", "\"abc\"", "\"1\"", "[]", "{}",
+        "9007199254740993", "18446744073709551616", "0.1", "123456789012", "1e-7", "4 2", "",
+    ];
+    const PADS: &[&str] = &[
+        " ", "\t", "\n", "\r", "  ", "\r\n", "\u{a0}", "\u{b}", "\u{c}", "\u{85}", "\u{1680}", "\u{2003}", "\u{2028}", "\u{2029}", "\u{202f}", "\u{205f}", "\u{3000}", "\u{feff}", "\u{200b}",
+        "\u{0}", "x", "'", "\"",
+    ];
+    let mut s = String::new();
+    if src.chance(90) {
+        for _ in 0..1 + src.below(2) {
+            s.push_str(*src.pick(PADS));
+        }
+    }
+    if src.chance(60) {
+        // a generated numeral
+        match gen_number(src) {
+            J::Num(N::Int(i)) => s.push_str(&i.to_string()),
+            other => s.push_str(&other.to_json()),
+        }
+    } else {
+        s.push_str(*src.pick(CORES));
+    }
+    if src.chance(90) {
+        for _ in 0..1 + src.below(2) {
+            s.push_str(*src.pick(PADS));
+        }
+    }
+    s
+}
+
 pub fn gen_string(src: &mut Src) -> String {
+    if src.chance(14) {
+        return gen_jsonish(src);
+    }
     if src.chance(200) {
         src.pick(STRINGS).to_string()
     } else {
